@@ -49,16 +49,42 @@ theorem insync_not_before (evs : List AcgEvent) (a : Acg) (ms : List Msg)
   have := (acg_run (a := {}) (by simp [AcgInv]) hr).2 hm
   simpa using this
 
-/-- (i) `flush_refs_closed`, route → VTEP part, with the hypothesis that makes it true: in any
-configuration reachable by a protocol-respecting history (`Inv s u d`, see `hist_ok`), if the declared
-and the current dataplane state are route-closed and the flush does not re-point (update in place) a
-route away from a VTEP that it also removes (`hnr`: every route the dataplane has that needs a VTEP
-pending removal is itself pending removal), then after EVERY SINGLE message of the flush every route's
-VTEP is present.  Without `hnr` the statement is false: `route_vtep_not_closed`. -/
-theorem flush_routes_closed_partial {s : State} {u d : DP} (hi : Inv s u d) (hu : u.closedRoutes) (hd : d.closedRoutes)
-    (hnr : ∀ dst r n, d.route dst = some r → r.vtep = some n → n ∈ s.vtep.del → dst ∈ s.route.del) :
-    AfterEach DP.closedRoutes d s.flush.2 :=
-  flush_closed_routes hi hu hd hnr
+/-- (i) `flush_refs_closed`, route → VTEP part, with the hypothesis that makes it true, for ALL
+histories and placements of flushes: if at every flush the declared state is route-closed and no route
+the dataplane has is re-pointed away from a VTEP that is no longer declared (`RoutesOKAtFlushes`:
+such a route must itself be no longer declared, i.e. it is removed, not updated in place), then after
+EVERY SINGLE emitted message every route's VTEP is present.  Without that hypothesis the statement is
+false of the current code: `route_vtep_not_closed`. -/
+theorem routes_closed_partial (h : List Step) (hv : ValidHist {} h) (hr : RoutesOKAtFlushes {} {} h) :
+    ∃ s ms, execHist {} h = some (s, ms) ∧ AfterEach DP.closedRoutes {} ms :=
+  hist_closed_routes Inv.init (by intro dst r n h1; simp at h1) h hv hr
+
+/-- the hypotheses of `routes_closed_partial` hold for a history that removes a route together with the
+VTEP it needs (and the emitted stream removes the route first) -/
+def routeRemoveHist : List Step :=
+  [Step.call (.routeUpdate "r" ⟨"a", some "n2"⟩), Step.call (.vtepUpdate "n2" "b"), Step.flush,
+   Step.call (.routeRemove "r"), Step.call (.vtepRemove "n2"), Step.flush]
+
+example : ValidHist {} routeRemoveHist ∧ RoutesOKAtFlushes {} {} routeRemoveHist := by
+  refine ⟨by simp [routeRemoveHist, ValidHist, upValid], ?_⟩
+  simp only [routeRemoveHist, RoutesOKAtFlushes, upApply]
+  refine ⟨?_, ?_, ?_, ?_, trivial⟩
+  · intro dst r n h1 h2
+    simp only [fupd] at h1 ⊢
+    by_cases hd : dst = "r"
+    · simp only [hd, if_true, Option.some.injEq] at h1
+      subst h1; simp only [Option.some.injEq] at h2; subst h2; simp
+    · simp [hd] at h1
+  · intro dst r n h1; simp at h1
+  · intro dst r n h1; simp only [fupd] at h1; by_cases hd : dst = "r" <;> simp [hd] at h1
+  · intro dst r n h1 h2 _
+    simp only [fupd] at h1 ⊢
+    by_cases hd : dst = "r"
+    · simp [hd]
+    · simp [hd] at h1
+
+example : (execHist {} routeRemoveHist).map (·.2) = some [Msg.vtepUpdate "n2" "b", Msg.routeUpdate "r" ⟨"a", some "n2"⟩,
+    Msg.routeRemove "r", Msg.vtepRemove "n2"] := by decide
 
 /-! ### the route → VTEP part of (i) is FALSE of the current code -/
 
